@@ -694,7 +694,9 @@ func (s *scanner) stateAnyAnnotationStart(c byte) (st state, err error) {
 }
 
 func (s *scanner) stateInlineAnnotation(c byte) (state, error) {
-	if bytes.IsBlank(c) {
+	// Only spaces and tabs are skipped: a line break ends the annotation even
+	// if it is empty.
+	if bytes.IsSpace(c) {
 		return scanSkip, nil
 	}
 
